@@ -156,6 +156,27 @@ def run(out, tier):
             pairs.append(("mut:" + k, i, add(m)))
         if n % 3 == 0:
             pairs.append(("random", i, add(rand_state(r, adversarial=True))))
+    # many input files (sizes around the thresholds where an implementation might batch or parallelise hashing):
+    # permuted declaration order must keep the key; exchanging the contents of two files, or moving one file's content to
+    # another path, must change it
+    for nin in ([33, 65, 100] if tier == "quick" else [17, 33, 64, 65, 66, 100, 129, 257, 300]):
+        paths = ["f%03d.txt" % k for k in range(nin)]
+        big = {"pkg": "p", "name": "many", "cmd": "c", "ins": list(paths), "files": {p: "content-%d" % (k % 7 if k > 1 else k) for k, p in enumerate(paths)},
+               "outs": [("file", "o")], "deps": [], "fp": {}, "multi": False}
+        i = add(big)
+        pm = copy.deepcopy(big); pm["ins"] = r.shuffle(pm["ins"])
+        pairs.append(("perm", i, add(pm)))
+        sw = copy.deepcopy(big)
+        a, b = paths[0], paths[1]          # distinct contents by construction
+        sw["files"][a], sw["files"][b] = big["files"][b], big["files"][a]
+        pairs.append(("mut:swap-two-file-contents", i, add(sw)))
+        sw2 = copy.deepcopy(big)
+        a, b = paths[nin // 2], paths[nin - 1]
+        if sw2["files"][a] != sw2["files"][b]:
+            sw2["files"][a], sw2["files"][b] = big["files"][b], big["files"][a]
+            pairs.append(("mut:swap-two-file-contents", i, add(sw2)))
+        ed = copy.deepcopy(big); ed["files"][paths[nin - 1]] = "edited"
+        pairs.append(("mut:content", i, add(ed)))
     # tiny-domain random pairs: chance collisions between independently drawn states
     tiny = []
     for _ in range(nstates // 2):
